@@ -783,7 +783,7 @@ func (m *model) resolvesTo(tn string, f field) bool {
 }
 
 func TestCompletion(t *testing.T) {
-	want, ran := rec.Scale(200, 400), 0
+	want, ran := rec.Scale(200, 300), 0
 	defer func() {
 		if !rec.ReplayOnly() && !t.Failed() && ran < want {
 			t.Fatalf("only %d of %d cases ran (rapid stopped early): inconclusive", ran, want)
